@@ -1,10 +1,14 @@
 import MdIt.Drv.Ruler
+import MdIt.Drv.Conc
+import MdIt.Drv.Inst
 open MdIt
 
 def handle (line : String) : String :=
   match (line.trimAscii.toString.splitOn " ").filter (· ≠ "") with
   | "ruler" :: rest => Drv.rulerLine rest
   | "facade" :: rest => Drv.facadeLine rest
+  | "conc" :: rest => Drv.concLine rest
+  | "reset" :: rest => Drv.resetLine rest
   | _ => "bad-request"
 
 partial def loop (hin hout : IO.FS.Stream) : IO Unit := do
